@@ -415,9 +415,10 @@ def plan(tier):
                               'symbolic and CBMC does not terminate in 300 s for 1 sleep + 1 get_expired); thread / thread-pool mode'))
     # one step from every reachable abstract heap state (<= 3 entries, alive or emptied)
     if tier == 'quick':
-        cv, nst, ntot = cover_vectors(COVER_QUICK_PREFIX, 'LG', (C,), coarse_now=True)
-        what = ('the %d of them whose shortest history has <= %d operations, followed by every single cancel / get_expired (get_expired below the earliest and at each time point; '
-                'positions strictly between two time points and above the latest one are in the thorough tier)' % (nst, COVER_QUICK_PREFIX))
+        cv, nst, ntot = cover_vectors(COVER_QUICK_PREFIX, 'G', (C,), coarse_now=True)
+        cv += cover_vectors(COVER_QUICK_PREFIX - 1, 'L', (C,), coarse_now=True)[0]
+        what = ('the %d of them whose shortest history has <= %d operations, followed by every single get_expired (below the earliest and at each time point; positions strictly between two time points and above the '
+                'latest one are in the thorough tier) and, for the states reached within %d operations, by every single cancel' % (nst, COVER_QUICK_PREFIX, COVER_QUICK_PREFIX - 1))
     else:
         cv, nst, ntot = cover_vectors(11, 'SLG', (C, CE, R))
         what = 'all of them, followed by every single sleep / cancel / cancel(e) / remove / get_expired'
